@@ -57,6 +57,29 @@ pub fn cells(tier: Tier) -> Vec<CellPlan> {
         c.rounds = if q { 3 } else { 4 };
         v.push(plan(c, if q { 2 } else { 3 }, 1.0));
     }
+    // Entities holding periodically replicated and send-once components: a client that
+    // authorizes late must still receive them in full.
+    for (name, auth) in [("rates-protocol", Auth::ProtocolCheck), ("rates-custom", Auth::Custom)] {
+        let mut c = cell(name, auth, false);
+        c.cfg.with_p = true;
+        c.cfg.with_o = true;
+        c.init = vec![Op::Spawn(0, (1 << TA) | (1 << TP) | (1 << TO))];
+        c.alphabet = vec![
+            EvOp::Nop,
+            EvOp::Connect(1),
+            EvOp::World(Op::Mut(0, TP)),
+            EvOp::World(Op::Mut(0, TO)),
+            EvOp::World(Op::Spawn(1, (1 << TP) | (1 << TO))),
+            EvOp::EmitS(SK::E1, Mode::Broadcast, None),
+            EvOp::Disconnect(1),
+        ];
+        if auth == Auth::Custom {
+            c.alphabet.push(EvOp::Authorize(1));
+        }
+        c.rounds = if q { 3 } else { 4 };
+        c.closure_rounds = 8;
+        v.push(plan(c, if q { 1 } else { 2 }, 1.0));
+    }
     v
 }
 
